@@ -98,11 +98,16 @@ def grid_of(pat):
     return [[(int(n.note), n.vel, n.module, n.ctl, n.val) for n in line] for line in pat.data]
 
 
-def run_history(lines, tracks, attached, hist):
+SPARSE = [  # one-field-only cells: a copy that keys on "is this note empty?" must not lose them
+    (0, 0, 7, 0, 0), (0, 5, 0, 0, 0), (0, 0, 0, 0x0300, 0), (0, 0, 0, 0, 0x1234), (0, 0, 0, 0, 0), (61, 0, 0, 0, 0),
+]
+
+
+def run_history(lines, tracks, attached, hist, initial="dense"):
     import rv.api as rv
 
     vs = []
-    case = {"shape": [lines, tracks], "attached": attached, "history": hist}
+    case = {"shape": [lines, tracks], "attached": attached, "history": hist, "initial": initial}
     pat = rv.Pattern(lines=lines, tracks=tracks)
     proj = None
     if attached:
@@ -110,14 +115,19 @@ def run_history(lines, tracks, attached, hist):
         proj.new_module(rv.m.Amplifier)
         proj.attach_pattern(pat)
     # start from a non-empty pattern so "keeps previous content" is observable
+    off = {"dense": None, "sparse0": 0, "sparse3": 3}[initial]
     for l in range(lines):
         for t in range(tracks):
             n = pat.data[l][t]
-            n.note, n.vel, n.ctl, n.val = rv.NOTECMD(100 + l), 3, t, l
+            if off is None:
+                n.note, n.vel, n.ctl, n.val = rv.NOTECMD(100 + l), 3, t, l
+            else:
+                c = SPARSE[(l * tracks + t + off) % len(SPARSE)]
+                n.note, n.vel, n.module, n.ctl, n.val = rv.NOTECMD(c[0]), c[1], c[2], c[3], c[4]
     grid = grid_of(pat)
     for i, op in enumerate(hist):
         kind = op["op"] + ("-fail" if op["fail"] is not None else "-ok")
-        key = {"op": kind, "attached": attached}
+        key = {"op": kind, "attached": attached, "initial": initial.rstrip("03")}
         raw_before = pat.raw_data
         raised, expect_fail, expected = apply_op(pat, grid, op, lines, tracks)
         got = grid_of(pat)
@@ -155,7 +165,7 @@ def run_history(lines, tracks, attached, hist):
 
 
 def run_case(case):
-    return run_history(case["shape"][0], case["shape"][1], case["attached"], case["history"])
+    return run_history(case["shape"][0], case["shape"][1], case["attached"], case["history"], case.get("initial", "dense"))
 
 
 def _task(t):
@@ -166,12 +176,13 @@ def _task(t):
     for first in ops[first_lo:first_hi]:
         for rest in itertools.chain.from_iterable(itertools.product(ops, repeat=d) for d in range(0, depth)):
             hist = [first] + list(rest)
-            vs = run_history(lines, tracks, attached, hist)
-            r["evals"] += 1
-            C.count(r, "histories")
-            outcomes.add(tuple((o["op"], o["fail"] is not None) for o in hist))
-            if len(r["violations"]) < 30:
-                r["violations"] += vs
+            for initial in ("dense", "sparse0", "sparse3"):
+                vs = run_history(lines, tracks, attached, hist, initial)
+                r["evals"] += 1
+                C.count(r, "histories")
+                outcomes.add((initial,) + tuple((o["op"], o["fail"] is not None) for o in hist))
+                if len(r["violations"]) < 30:
+                    r["violations"] += vs
     r["digests"] = {repr(o).encode() for o in outcomes}
     r["sample"] = {"shape": [lines, tracks], "attached": attached, "history": [ops[first_lo], ops[-1]]}
     return r
